@@ -269,6 +269,64 @@ def axes(ctx, col):
              for n in own_nodes(s))
     col.shape(ok, "R-AXES", s.qualname, s.loc(), "frame-wise writer labels the file ZXY", "", "axes label is not ZXY", stmt="save_tif")
     g = repo.get_def("swcgeom.transforms.image_stack.ToImageStack._get_samplers")
+    # axis kinds: nothing that belongs to one axis (a component of the voxel size, of a corner) is combined with another axis
+    from ..rules import axiskind
+    col.rule("R-AXISKIND", "per-axis quantities stay on their axis: in the sampler set-up no length along one axis is added to / compared with / divided by a length "
+             "along another one, no single-axis length is added to a whole per-axis triple, and the k-th component of a position triple is a length along axis k "
+             "(abstract interpretation over the kinds X, Y, Z, per-axis triple, pure number); positive examples kept", floor=2)
+    fx = axiskind.fixture_ok()
+    col.check(fx.get("slice_at_x_step", 0) >= 1 and fx.get("half_x_voxel_everywhere", 0) >= 1 and fx.get("swapped_components", 0) >= 1 and fx.get("fine") == 0,
+              "R-AXISKIND", "sa.fixtures.axiskind_positive", "sa/fixtures/axiskind_positive.py:1", "the axis-kind interpreter recognises its kept examples", str(fx),
+              f"fixture results {fx}", stmt="fixture")
+    axiskind.check_function(col, "R-AXISKIND", g, {"coord_min": axiskind.VEC, "coord_max": axiskind.VEC, "offset": axiskind.VEC}, {"resolution": axiskind.VEC},
+                            "sampling positions: every per-axis quantity stays on its own axis")
+    # the slices, folded exactly at witness boxes whose z extent is / is not a whole number of voxels: one sampler per voxel centre below the upper corner
+    from fractions import Fraction as _Fr
+    from ..vecfold import VecEval, Unsupported as _Uns, Randomised as _Rnd, ZeroNorm as _Zero
+    col.rule("R-SLICES", "the sampler generator yields exactly one slice per voxel centre zmin + dz/2 + k*dz below the upper corner, at that depth (the generator is folded exactly at "
+             "witness boxes whose z extent is a whole / half / non-integral number of voxels, isotropic and anisotropic voxel sizes)", floor=1, exhaustive=True)
+    bad = und = None
+    n_w = 0
+    for res in ((1, 1, 1), (1, 1, 2), (2, 1, _Fr(1, 2))):
+        for zext in (2, 3, _Fr(5, 2), _Fr(7, 2), 4, 5, _Fr(1, 2)):
+            dz = _Fr(res[2])
+            env = {"coord_min": (0, 0, 0), "coord_max": (4, 4, zext), "offset": None, "self.resolution": res, "np.inf": 10 ** 9}
+            try:
+                ev = VecEval(env, opaque_calls=("RangeSampler",), identity_calls=("_tp3f",))
+                ev.run(g.node.body)
+            except (_Uns, _Rnd, _Zero) as x:
+                und = f"{type(x).__name__}: {x}"
+                break
+            except Exception as x:  # noqa: BLE001
+                und = f"{type(x).__name__}: {x}"
+                break
+            n_w += 1
+            want = []
+            z = dz / 2
+            while z < _Fr(zext):
+                want.append(z)
+                z += dz
+            got = []
+            for y in ev.yields:
+                if isinstance(y, tuple) and len(y) >= 3 and y[0] == "__obj__" and isinstance(y[2], tuple) and len(y[2]) == 3:
+                    got.append(y[2][2])
+                else:
+                    und = f"a yielded value is not a sampler over a (x, y, z) corner: {y!r}"[:120]
+            if und:
+                break
+            if got != want:
+                bad = (res, zext, [str(x) for x in got], [str(x) for x in want])
+                break
+        if bad or und:
+            break
+    what_s = "one slice per voxel centre below the upper corner, at that depth"
+    if bad is not None:
+        col.bad("R-SLICES", g.qualname, g.loc(), what_s, f"resolution {tuple(str(x) for x in bad[0])}, box z extent {bad[1]}: slices at z = {bad[2]}, the voxel centres are {bad[3]} -- "
+                f"the stack has another number of frames than the bounding box has voxel layers, or samples them at the wrong depth", stmt="slices", definite=True)
+    elif und is not None:
+        col.unresolved("R-SLICES", g.qualname, g.loc(), what_s, f"cannot fold the generator exactly: {und}", stmt="slices")
+    else:
+        col.ok("R-SLICES", g.qualname, g.loc(), what_s, f"{n_w} witness boxes folded", stmt="slices")
     src = norm_src(g.node)
     ok = "offset = offset or stride / 2" in src and "_tp3f(coord_min + offset)" in src
     col.shape(ok, "R-AXES", g.qualname, g.loc(), "samples are taken at voxel centres (half a voxel from the lower corner)", "",
